@@ -267,7 +267,7 @@ Definition parent_component (f : field) (cname : str) : result comp :=
 
 End Resolve.
 
-(* letter-case variants used by the finite obligations: all upper, all lower, alternating *)
+(* examples of ASCII re-casings (C14_recasings: they all have the same `upper`) *)
 Fixpoint alt_case (up : bool) (s : str) : str :=
   match s with
   | [] => []
@@ -369,6 +369,13 @@ Definition check_segment (p : str * sref) : list str * tally * N :=
   | Err _ => ([fst p], tally0, 0%N)
   end.
 
+(* ---- positional hygiene: a name has the shape of a positional path of one of `fields` ---- *)
+Definition path_shaped (fields : list str) (x : str) : bool :=
+  match bsplit US (upper x) with
+  | [a; b; c] => opt_is_some (py_int c) && smem (a ++ "_" ++ b) fields
+  | [a; b; c; d] => opt_is_some (py_int c) && opt_is_some (py_int d) && smem (a ++ "_" ++ b) fields
+  | _ => false
+  end.
 (* ---- a complex datatype seen from a field of that datatype: its component rows.  Resolution by
    name / long name depends on the field only through its datatype and the two maps of its structure
    (ResolveFacts.field_find_same_maps), which are those of this representative ---- *)
@@ -377,12 +384,17 @@ Definition struct_field (d : str) : result field :=
   | Ok st => Ok (mk_field_rec None (Some d) (Some st) [])
   | Err x => Err x
   end.
-Definition check_struct (p : str * list srow) : list str * tally :=
+(* no child name and no long name of the datatype is a positional path of any field parent *)
+Definition struct_clean (fields : list str) (st : structure) : bool :=
+  forallb (fun p => negb (path_shaped fields (fst p))) (st_by_name st)
+  && forallb (fun p => match fst p with Some l => negb (path_shaped fields l) | None => true end) (st_by_long st).
+Definition check_struct (fields : list str) (p : str * list srow) : list str * tally :=
   match struct_field (fst p) with
   | Ok f =>
       match f_st f with
       | Some st =>
           if has_map_st st && keys_ok st && negb (base t (f_dt f)) && negb (is_varies (f_dt f))
+             && streqb (upper (fst p)) (fst p) && struct_clean fields st
           then check_rows (fst p) (field_getattr t lvl f) reserved_Field (entries st)
           else ([fst p ++ "/shape"], tally0)
       | None => ([fst p], tally0)
@@ -429,27 +441,11 @@ Definition field_parent_ok (p : str * sref) : bool :=
      | _ => false
      end.
 
-(* ---- positional hygiene: a name has the shape of a positional path of one of `fields` ---- *)
-Definition path_shaped (fields : list str) (x : str) : bool :=
-  match bsplit US (upper x) with
-  | [a; b; c] => opt_is_some (py_int c) && smem (a ++ "_" ++ b) fields
-  | [a; b; c; d] => opt_is_some (py_int c) && opt_is_some (py_int d) && smem (a ++ "_" ++ b) fields
-  | _ => false
-  end.
-(* no DATATYPES key (they are the child names of every complex datatype) and no long name of a
-   DATATYPES entry is a positional path of a field parent: such a path would be taken for that name
-   (or refused as ChildNotValid) instead of being decoded *)
-Definition component_longs : list str :=
-  flat_map (fun p => match long_of (mk_sentry [] (snd p) CMP) with Some l => [l] | None => [] end) (t_components t).
+(* no DATATYPES key is a positional path of a field parent: such a path would be refused as
+   ChildNotValid instead of being decoded (child names and long names: struct_clean above) *)
 Definition paths_clean : bool :=
   let fields := map fst field_parents in
-  forallb (fun k => negb (path_shaped fields k)) (map fst (t_components t))
-  && forallb (fun l => negb (path_shaped fields l)) component_longs.
-(* the rows of every datatype are DATATYPES entries by name (so the two lists above cover them) *)
-Definition structs_by_name : bool :=
-  forallb (fun p => forallb (fun x => match x with
-                                     | SByName CMP n _ _ => opt_is_some (slookup n (t_components t))
-                                     | _ => false end) (snd p)) (t_structs t).
+  forallb (fun k => negb (path_shaped fields k)) (map fst (t_components t)).
 
 Definition components_digest : N :=
   fold_left (fun acc p => (acc + alias_pair (fst p) (long_of (mk_sentry [] (snd p) CMP)))%N) (t_components t) 0%N.
@@ -473,16 +469,17 @@ Definition real_segments : list (str * sref) :=
 
 Definition report : c14_report :=
   let segs := map check_segment real_segments in
-  let sts := map check_struct (t_structs t) in
-  let cmps := map check_component (t_components t) in
   let fps := field_parents in
+  let fields := map fst fps in
+  let sts := map (check_struct fields) (t_structs t) in
+  let cmps := map check_component (t_components t) in
   mk_report (flat_map (fun x => fst (fst x)) segs) (flat_map fst sts) (flat_map fst cmps)
             (map fst (filter (fun p => negb (field_parent_ok p)) fps))
             (tally_list (tally_sum (map (fun x => snd (fst x)) segs)))
             (tally_list (tally_sum (map snd sts)))
             (tally_list (tally_sum (map snd cmps)))
             [N.of_nat (length segs); N.of_nat (length sts); N.of_nat (length cmps); N.of_nat (length fps)]
-            (paths_clean && structs_by_name)
+            paths_clean
             ((fold_left (fun acc x => (acc + snd x)%N) segs 0%N + components_digest) mod 1000000007)%N.
 
 (* the part of the report that must hold of any version; the counts are pinned per version *)
